@@ -298,6 +298,11 @@ class Engine:
             if inner.is_heapref:
                 return SV(to, v.t)
             return SV(to, v.t, z3.BoolVal(False))
+        if to.kind == "any" and (v.ty.kind == "str" or (v.ty.kind == "opt" and v.ty.args[0].kind == "str")):
+            b = self.box_str(v.t)
+            if v.ty.kind == "opt":
+                return SV(to, z3.If(self.is_none(v), z3.IntVal(0), b))
+            return SV(to, b)
         if v.ty.kind == "opt" and to.kind != "opt":
             return SV(to, v.t)
         if to.kind == "any":
@@ -311,6 +316,17 @@ class Engine:
         if v.ty.kind == "bool" and to.kind == "int":
             return SV(to, z3.If(v.t, 1, 0))
         return SV(to if to.kind != "tuple" else v.ty, v.t, v.isnone)
+
+    def box_str(self, term):
+        """a string seen as an opaque object (parameter / field declared `any`): injective boxing, length kept"""
+        box = z3.Function("box_str", z3.StringSort(), z3.IntSort())
+        unbox = z3.Function("unbox_str", z3.IntSort(), z3.StringSort())
+        alen = z3.Function("any_len", z3.IntSort(), z3.IntSort())
+        b = box(term)
+        fact = z3.And(b > 0, unbox(b) == term, alen(b) == z3.Length(term))
+        if not any(fact.eq(x) for x in self.st.pc[-60:]):
+            self.assume(fact)
+        return b
 
     def default_term(self, t):
         if t.kind == "int":
@@ -487,6 +503,10 @@ class Engine:
         if all(v.ty.kind == "bool" for v in vals):
             ts = [v.t for v in vals]
             return SV(T.BOOL, z3.And(*ts) if is_and else z3.Or(*ts))
+        if getattr(n, "_truth_only", False):
+            # the value is only tested (if / while / not): truthiness of each operand
+            ts = [self.truthy(v) for v in vals]
+            return SV(T.BOOL, z3.And(*ts) if is_and else z3.Or(*ts))
         # value-returning and/or: fold from the right
         res = vals[-1]
         for v in reversed(vals[:-1]):
@@ -579,6 +599,27 @@ class Engine:
         raise Unsupported(f"binary operator on {a.ty}, {b.ty} at line {line}")
 
     def ev_Compare(self, n):
+        # idiom `type(x) is tuple` (== / is / is not): decided from the sidecar type of x (typed view)
+        if (len(n.ops) == 1 and isinstance(n.ops[0], (ast.Is, ast.IsNot, ast.Eq, ast.NotEq))
+                and isinstance(n.left, ast.Call) and isinstance(n.left.func, ast.Name) and n.left.func.id == "type"
+                and len(n.left.args) == 1 and isinstance(n.comparators[0], ast.Name)
+                and n.comparators[0].id in ("tuple", "list", "str", "int", "bool", "dict", "set")):
+            v = lift(self.ev(n.left.args[0]))
+            k = v.ty.args[0].kind if v.ty.kind == "opt" else v.ty.kind
+            if k in ("tuple", "list", "str", "int", "bool", "dict", "set", "none"):
+                same = (k == n.comparators[0].id)
+                if v.ty.kind == "opt":
+                    res = z3.And(z3.Not(self.is_none(v)), z3.BoolVal(same))
+                else:
+                    res = z3.BoolVal(same)
+                self.assumptions_used.add(f"type({ast.unparse(n.left.args[0])}) decided from its sidecar type {v.ty}")
+                return SV(T.BOOL, res if isinstance(n.ops[0], (ast.Is, ast.Eq)) else z3.Not(res))
+            if k == "any" and n.comparators[0].id == "tuple":
+                self.assumptions_used.add(f"type({ast.unparse(n.left.args[0])}) is tuple: assumed False for the opaque "
+                                          "value (typed view: no tuple results)")
+                res = z3.BoolVal(False)
+                return SV(T.BOOL, res if isinstance(n.ops[0], (ast.Is, ast.Eq)) else z3.Not(res))
+            raise Unsupported("type() of " + repr(v.ty))
         left = self.ev(n.left)
         conj = []
         for op, rn in zip(n.ops, n.comparators):
@@ -602,6 +643,11 @@ class Engine:
         if sa != sb:
             if {a.ty.kind, b.ty.kind} <= {"int", "bool"}:
                 return self.coerce(a, T.INT).t == self.coerce(b, T.INT).t
+            # an opaque object compared with a string: the string is boxed
+            for x, y in ((a, b), (b, a)):
+                yk = y.ty.args[0].kind if y.ty.kind == "opt" else y.ty.kind
+                if x.ty.kind == "any" and yk == "str":
+                    return x.t == self.coerce(y, T.ANY).t
             return z3.BoolVal(False)
         if a.ty.kind == "opt" or b.ty.kind == "opt":
             return z3.Or(z3.And(na, nb), z3.And(z3.Not(na), z3.Not(nb), a.t == b.t))
@@ -1274,7 +1320,18 @@ class Engine:
         outs = self.split_failures(st, s.lineno)
         return outs + [Outcome("raise", st, exc=exc, line=s.lineno)]
 
+    @staticmethod
+    def mark_truth_only(test):
+        """and/or/not whose value is only tested: operands of mixed types need no common type"""
+        if isinstance(test, ast.BoolOp):
+            test._truth_only = True
+            for v in test.values:
+                Engine.mark_truth_only(v)
+        elif isinstance(test, ast.UnaryOp) and isinstance(test.op, ast.Not):
+            Engine.mark_truth_only(test.operand)
+
     def st_If(self, s, st):
+        self.mark_truth_only(s.test)
         c = self.truthy(self.hoisted_value(s.test) if isinstance(s.test, ast.Call) else self.ev(s.test))
         outs = self.split_failures(st, s.lineno)
         st_t, st_f = st.copy(), st
